@@ -216,6 +216,20 @@ ROUND4 = {
     'C19': 'Fourth round: hook family (trenches of 5-9 coordinates curling one way, check points up to 300 km away).',
 }
 
+ROUND5 = {
+    'C01': 'Fifth round: add-velocity models and negative compositions in the partial world, composition entry point for compositions 2 and 3.',
+    'C04': 'Fifth round: plume rotation angles more than a quarter turn apart.',
+    'C05': 'Fifth round: negative uniform offsets, two models with a later locally-short replace range, slow spreading, plume sentinel, three offset ridge segments with per-coordinate velocities, two plates over one area.',
+    'C06': 'Fifth round: top truncation decreasing down dip; feet exactly on a segment joint are undecided in the no-foot branch.',
+    'C10': 'Fifth round: suite emptylists; noop kind with an inherited temperature model.',
+    'C11': 'Fifth round: suite maxdefault (max depth lists without a value for the corners).',
+    'C12': 'Fifth round: rejected documents offered to the entry point that writes declaration files.',
+    'C13': 'Fifth round: hand-typed rotation matrices, plate model on long fast slabs.',
+    'C16': 'Fifth round: refusals of a world without cross section through both wrappers.',
+    'C17': 'Fifth round: remarks behind option values; convert spherical in 2-D is reported.',
+    'C18': 'Fifth round: arrays of whole compression blocks (VTK last-block convention), world without a mantle layer under the filter options.',
+}
+
 def main():
     props = [json.loads(l) for l in open(f'{V}/properties.jsonl')]
     hooks_commits = []
@@ -233,6 +247,7 @@ def main():
             if i in ROUND2: text = text + ' ' + ROUND2[i]
             if i in ROUND3: text = text + ' ' + ROUND3[i]
             if i in ROUND4: text = text + ' ' + ROUND4[i]
+            if i in ROUND5: text = text + ' ' + ROUND5[i]
             c = {
                 'property_id': i,
                 'quick_cmd': f'./check {i} --tier quick',
